@@ -156,8 +156,9 @@ def main(argv=None):
             cases[0]["features"] = w.get("features") or {}
     else:
         cases = mod.plan(tier, seed)
-        if a.cases:
-            cases = cases[: a.cases]
+        if a.cases and a.cases < len(cases):
+            step = len(cases) / a.cases
+            cases = [cases[int(i * step)] for i in range(a.cases)]  # evenly spaced: every slice of the plan
     for i, c in enumerate(cases):
         c.setdefault("id", f"{pid}-{tier[0]}{seed}-{i}")
 
